@@ -208,7 +208,15 @@ def run(pid, tier, seed, replay=None):
             L += yvlib.script_read(0, g.as_dict(), 0) + ['PARSE 0 0 %d %s' % (len(tok), ' '.join(map(str, tok)))]
         L += ['FREEG 0', 'FREET 0 1', 'FREET 1 1', 'FREET 2 1']
         add('redefine', {'grammar': yvlib.grammar_text(g.as_dict())[:200], 'bad': yvlib.grammar_text(bad)[:200]}, L)
-    res = yvlib.run_driver(exe, '\n'.join(c[2] for c in cases), timeout_case=10 if quick else 30, leaks=False)
+    # the heavy cases (tens of thousands of tokens, hundreds of contexts) get their own run with a long watchdog: on a busy
+    # machine they take more than the 10 s that are plenty for everything else (a false alarm of that kind was seen once)
+    heavy = [i for i, c in enumerate(cases) if c[0] in ('longrule', 'contexts')]
+    light = [i for i, c in enumerate(cases) if c[0] not in ('longrule', 'contexts')]
+    res = [None] * len(cases)
+    for idx, to in ((light, 10 if quick else 30), (heavy, 240)):
+        if idx:
+            for i, r in zip(idx, yvlib.run_driver(exe, '\n'.join(cases[i][2] for i in idx), timeout_case=to, leaks=False)):
+                res[i] = r
     stats = {'cases': len(cases), 'by_kind': {}, 'nonzero_codes': {}, 'max_message_length': 0}
     for (kind, info, sc), r in zip(cases, res):
         stats['by_kind'][kind] = stats['by_kind'].get(kind, 0) + 1
